@@ -80,7 +80,7 @@ CLAIMS.update({
 CLAIMS.update({
     "C08": dict(
         technique="branch-consistent path exploration (must-pass-through of the normalising call under normalize_factors=True; core/factor version relation for HOOI) + abstract interpretation of every decomposition's return values (wrapper-object shapes per return statement)",
-        text="Decides three structural clauses: with normalisation requested every path from a sweep write to a return -- convergence break, callback stop and iteration cap alike -- passes the normalising call in the 7 drivers that offer the option; every decomposition entry point (CP family, Tucker family, PARAFAC2, TT, TT-matrix, TR-SVD, TR-ALS, CMTF) returns, at every return statement, a value built by its family's validating wrapper constructor, so the validator's format conditions (equal column counts, TT boundary ranks 1, TR closing rank, one projection per PARAFAC2 slice, core/factor agreement) hold on whatever is returned; HOOI's returned core is the projection computed after the last factor write. It does NOT decide shapes vs. requested ranks, orthonormality, TT left-orthogonality or 'weights all ones'.",
+        text="Decides three structural clauses: with normalisation requested every path from a sweep write to a return -- convergence break, callback stop and iteration cap alike -- passes the normalising call in the 7 drivers that offer the option; every decomposition entry point (CP family, Tucker family, PARAFAC2, TT, TT-matrix, TR-SVD, TR-ALS, CMTF) returns, at every return statement, a value built by its family's validating wrapper constructor, so the validator's format conditions (equal column counts, TT boundary ranks 1, TR closing rank, one projection per PARAFAC2 slice, core/factor agreement) hold on whatever is returned; HOOI's returned core is the projection computed after the last factor write; (RANK-ROTATION) in tensor_ring every sequence rotated by the starting mode is rotated as a cycle of n_dim entries (the rank vector's duplicated closing entry is not part of the cycle). It does NOT decide shapes vs. requested ranks, orthonormality, TT left-orthogonality or 'weights all ones'.",
         note="Trusted: C03 CTOR-VALIDATES (constructors validate); paths without a sweep write (n_iter_max=0) are outside NORMALISE-ON-EXIT; frozen driver table.",
         design="DESIGN.md §3 C08",
     ),
@@ -110,7 +110,7 @@ CLAIMS.update({
 CLAIMS.update({
     "C04": dict(
         technique="dimensional analysis by structural abstract interpretation (homogeneity degrees as linear forms in the number of factors, per-position list tracking, affine loop acceleration, path splitting at flag-dependent branches) + sign-parity and zero-sign lints",
-        text="PARTIAL claim; decides necessary conditions only. (DEGREE-CONSERVED) the object returned by cp_normalize, tucker_normalize, parafac2_normalise and cp_flip_sign represents a tensor with the same homogeneity degree in the weights/core, in every factor and in the projections as its input, and cp_mode_dot / tucker_mode_dot (matrix branch and contracted-vector branch) add exactly degree 1 in the operand -- for weights present and absent, on every return path and any number of factors; (SCALE-FREE) every factor returned by a normaliser has degree 0 in all inputs, the scale being carried by the weights/core alone; (SIGN-PARITY) in cp_flip_sign every sign vector enters the represented tensor an even number of times; (SIGN-NONZERO) a sign vector that multiplies a factor cannot vanish where the component does not. It does NOT decide that the represented tensors are equal (wrong index / column order conserve degree), the unit norm itself, cp_permute_factors' alignment, TT/TR rank padding, CP->PARAFAC2 conversion or the SVD compress/decompress round trip.",
+        text="PARTIAL claim; decides necessary conditions only. (DEGREE-CONSERVED) the object returned by cp_normalize, tucker_normalize, parafac2_normalise and cp_flip_sign represents a tensor with the same homogeneity degree in the weights/core, in every factor and in the projections as its input, and cp_mode_dot / tucker_mode_dot (matrix branch and contracted-vector branch) add exactly degree 1 in the operand -- for weights present and absent, on every return path and any number of factors; (SCALE-FREE) every factor returned by a normaliser has degree 0 in all inputs, the scale being carried by the weights/core alone; (SIGN-PARITY) in cp_flip_sign every sign vector enters the represented tensor an even number of times; (SIGN-NONZERO) a sign vector that multiplies a factor cannot vanish where the component does not; (LOST-REBIND) a transform that can return its operand itself never re-binds an unpacked component on a path to that return without storing it back. It does NOT decide that the represented tensors are equal (wrong index / column order conserve degree), the unit norm itself, cp_permute_factors' alignment, TT/TR rank padding, CP->PARAFAC2 conversion or the SVD compress/decompress round trip.",
         note="Trusted: degree specification of dot / mode_dot / norm / reshape; where(x == 0, 1, x) is evaluated as x (generic case); cp_mode_dot / tucker_mode_dot analysed with copy=True. Found and repaired: cp_flip_sign annihilated components with a zero-mean column (fix commit in /repo, known_findings.json).",
         design="DESIGN.md §17",
     ),
@@ -137,13 +137,13 @@ CLAIMS.update({
 CLAIMS.update({
     "C12": dict(
         technique="dimensional (unit) analysis of the operator bodies by structural abstract interpretation: tensor and unit-carrying parameter as one unit, coefficients and counts as numbers",
-        text="PARTIAL claim; decides joint positive homogeneity only. (PROX-HOMOGENEOUS) in soft / singular-value thresholding, the l2 and squared-l2 prox, smoothness, simplex and l1-ball projection, hard and normalised sparsity, monotone (both directions) and unimodal regression and Procrustes, no sum, difference or element store combines quantities of different units and the result has the unit of the input (no unit for the normalising operators). Every penalty offered is positively homogeneous or a squared norm with a dimensionless coefficient, so the exact prox satisfies prox(c v; c r) = c prox(v; r); an operator that is not jointly homogeneous cannot be the exact minimiser for every input and parameter. NOT decided: feasibility, optimality, idempotence, non-expansiveness, behaviour on negative inputs or inside the constraint set.",
+        text="PARTIAL claim; decides joint positive homogeneity only. (PROX-HOMOGENEOUS) in soft / singular-value thresholding, the l2 and squared-l2 prox, smoothness, simplex and l1-ball projection, hard and normalised sparsity, monotone (both directions) and unimodal regression and Procrustes, no sum, difference or element store combines quantities of different units and the result has the unit of the input (no unit for the normalising operators); (K-BY-RANK) hard_thresholding keeps exactly k entries: it selects by argsort rank against the count, never by magnitude against a cut-off magnitude. Every penalty offered is positively homogeneous or a squared norm with a dimensionless coefficient, so the exact prox satisfies prox(c v; c r) = c prox(v; r); an operator that is not jointly homogeneous cannot be the exact minimiser for every input and parameter. NOT decided: feasibility, optimality, idempotence, non-expansiveness, behaviour on negative inputs or inside the constraint set.",
         note="Trusted: unit table of the parameters (thresholds and radii carry the data's unit; l2-square and smoothness coefficients dimensionless; sparsity levels are counts), confirmed against the documented prox problems; guards x + 1e-12 / x + eps are negligible by intent.",
         design="DESIGN.md §17",
     ),
     "C20": dict(
         technique="dimensional analysis of the metric bodies by structural abstract interpretation: the two factor sets / data arrays as independent units",
-        text="PARTIAL claim; decides the scale behaviour only. (SCALE-BEHAVIOUR) congruence_coefficient (with and without absolute values), correlation_index (all four methods), R2_score, correlation, reflective_correlation_coefficient and leverage_score_dist are homogeneous of degree 0 in each argument -- a necessary condition of their invariance under rescaling of either factor set; MSE / variance have degree 2, covariance degree (1, 1), RMSE / standard deviation degree 1, as their definitions require; no sum or difference inside them combines different units. NOT decided: optimality of the matching over all permutations, the [0, 1] range, permutation invariance, the exact definitions.",
+        text="PARTIAL claim; decides the scale behaviour only. (SCALE-BEHAVIOUR) congruence_coefficient (with and without absolute values), correlation_index (all four methods), R2_score, correlation, reflective_correlation_coefficient and leverage_score_dist are homogeneous of degree 0 in each argument -- a necessary condition of their invariance under rescaling of either factor set; MSE / variance have degree 2, covariance degree (1, 1), RMSE / standard deviation degree 1, as their definitions require; no sum or difference inside them combines different units; (PERM-SPACE) index-space typing of the matching permutation: its direction is read from congruence_coefficient's source and cp_permute_factors picks columns of the tensor the permutation's values refer to, at the reference's positions. NOT decided: optimality of the matching over all permutations, the [0, 1] range, permutation invariance, the exact definitions.",
         note="Trusted: one scale per factor matrix stands for per-column scales (the metrics normalise with axis=0 norms); svd degree specification for the leverage scores.",
         design="DESIGN.md §17",
     ),
@@ -152,7 +152,7 @@ CLAIMS.update({
 CLAIMS.update({
     "C05": dict(
         technique="dimensional analysis of the SVD methods by structural abstract interpretation (backend svd / eigh / qr by specification) + sign-pairing lint of svd_flip + dispatch-table agreement",
-        text="PARTIAL claim; decides three structural clauses. (SVD-SCALING) truncated_svd, symeig_svd, randomized_svd and svd_interface with each method (with, without and with V-based sign resolution) return singular vectors of degree 0 and singular values of degree 1 in the matrix and add no quantities of different degree on the way -- the SVD of c*A is (U, c*S, V), so this is necessary for orthonormal vectors and true singular values (catches a missing square root in the Gram route, un-normalised or doubly normalised vectors, a range finder that is not orthonormalised when the power iterations are switched off, vectors multiplied by the spectrum); (FLIP-PAIRED) in each branch of svd_flip the sign vector multiplies both U and V exactly once, so sign resolution cannot change the product; (DISPATCH-AGREE) the branch method == '<name>' selects the function of that name and SVD_FUNS lists exactly the dispatched names. NOT decided: the values of the triplets, orthonormality itself, ordering, optimal truncation error, the randomized method's accuracy, shapes beyond min(shape), the non-negative option.",
+        text="PARTIAL claim; decides three structural clauses. (SVD-SCALING) truncated_svd, symeig_svd, randomized_svd and svd_interface with each method (with, without and with V-based sign resolution) return singular vectors of degree 0 and singular values of degree 1 in the matrix and add no quantities of different degree on the way -- the SVD of c*A is (U, c*S, V), so this is necessary for orthonormal vectors and true singular values (catches a missing square root in the Gram route, un-normalised or doubly normalised vectors, a range finder that is not orthonormalised when the power iterations are switched off, vectors multiplied by the spectrum); (FLIP-PAIRED) in each branch of svd_flip the sign vector multiplies both U and V exactly once, so sign resolution cannot change the product; (DISPATCH-AGREE) the branch method == '<name>' selects the function of that name and SVD_FUNS lists exactly the dispatched names; (NONNEG-OPTION) by {non-negative, any} abstract interpretation, make_svd_non_negative returns two entrywise non-negative factors for signed data and arbitrary singular vectors under nndsvd and nndsvda, and svd_interface returns exactly that pair. NOT decided: the values of the triplets, orthonormality itself, ordering, optimal truncation error, the randomized method's accuracy, shapes beyond min(shape).",
         note="Trusted: degree specification of backend svd / eigh / qr.",
         design="DESIGN.md §17",
     ),
